@@ -107,7 +107,7 @@ func VF_Air_Arbitrary() {
 				&responses.DKGProposalPubKeysParticipantEntry{ParticipantId: 0, Username: vfNameChoice("c.name", nodes), DkgPubKey: vfJunk("c.junk"), Threshold: 2})
 		}
 		// an operation file is untrusted input: the list may also hold a null entry (first or last)
-		switch vf.Choose("payload.null", 3) {
+		switch vf.Choose("payload.null", vfNullKinds()) {
 		case 1:
 			p = append(p, nil)
 		case 2:
@@ -136,7 +136,7 @@ func VF_Air_Arbitrary() {
 		}
 		p = append(p, &responses.DKGProposalCommitParticipantEntry{ParticipantId: vf.Int("d.pid"), Username: vfNameChoice("d.name", nodes), DkgCommit: crafted})
 		// an operation file is untrusted input: the list may also hold a null entry (first or last)
-		switch vf.Choose("payload.null", 3) {
+		switch vf.Choose("payload.null", vfNullKinds()) {
 		case 1:
 			p = append(p, nil)
 		case 2:
@@ -176,7 +176,7 @@ func VF_Air_Arbitrary() {
 		}
 		p = append(p, &responses.DKGProposalDealParticipantEntry{ParticipantId: vf.Int("r.pid"), Username: vfNameChoice("r.name", nodes), DkgDeal: enc})
 		// an operation file is untrusted input: the list may also hold a null entry (first or last)
-		switch vf.Choose("payload.null", 3) {
+		switch vf.Choose("payload.null", vfNullKinds()) {
 		case 1:
 			p = append(p, nil)
 		case 2:
@@ -207,7 +207,7 @@ func VF_Air_Arbitrary() {
 		}
 		p = append(p, &responses.DKGProposalResponseParticipantEntry{ParticipantId: vf.Int("m.pid"), Username: vfNameChoice("m.name", nodes), DkgResponse: bz})
 		// an operation file is untrusted input: the list may also hold a null entry (first or last)
-		switch vf.Choose("payload.null", 3) {
+		switch vf.Choose("payload.null", vfNullKinds()) {
 		case 1:
 			p = append(p, nil)
 		case 2:
@@ -389,4 +389,12 @@ func vfKind(name string, n int) int {
 		return k
 	}
 	return vf.Choose(name, n)
+}
+
+// vfNullKinds: 2 = the payload list as built, or with a null entry appended (quick); 3 = also with a null entry first (thorough)
+func vfNullKinds() int {
+	if vf.Param("nullkinds") == "3" {
+		return 3
+	}
+	return 2
 }
